@@ -197,6 +197,11 @@ def special_mods(fmt, doc, rng, T):
                     out.append(({"path": ["payload", "variants", cu, "uid"], "value": cu + "x"}, "uid-misaligned"))
                     out.append(({"path": ["payload", "variants", cu, "arches"], "value": sorted(set(vs[cu]["arches"]) | {"sparc"})}, "child-foreign-arch"))
             out.append(({"path": ["payload", "variants", uid, "uid"], "value": uid + "x"}, "uid-changed"))
+            out.append(({"path": ["payload", "variants", uid, "paths"], "value": 5}, "paths-not-a-dict"))
+            out.append(({"path": ["payload", "variants", uid, "variants"], "value": sorted(v.get("variants", [])) + ["Ghost"]}, "dangling-child-reference"))
+            if v.get("variants"):
+                out.append(({"path": ["payload", "variants", "%s-%s" % (uid, v["variants"][0])], "delete": True}, "child-entry-deleted"))
+                out.append(({"path": ["payload", "variants", uid, "variants"], "value": 7}, "children-not-a-list"))
     if fmt == "images":
         for v, arches in doc["payload"]["images"].items():
             for a in arches:
@@ -283,6 +288,14 @@ def treeinfo_value_mods(doc, rng):
             S(s, k, "0123", "checksum-format")
     if "tree" in doc:
         out.append(({"path": ["images-zzz"], "value": {"kernel": "images/zzz/kernel"}}, "unreferenced-platform"))
+        if "variants" in doc["tree"]:
+            out.append(({"path": ["tree", "variants"], "value": doc["tree"]["variants"] + ",Ghost"}, "dangling-variant-reference"))
+            out.append(({"path": ["tree", "variants"], "value": doc["tree"]["variants"] + ","}, "empty-variant-uid"))
+    for s in doc:
+        if (s.startswith("variant-") or s.startswith("addon-")) and "addons" in doc[s]:
+            out.append(({"path": [s, "addons"], "value": doc[s]["addons"] + "," + doc[s]["uid"] + "-Ghost"}, "dangling-addon-reference"))
+        if s == "checksums":
+            out.append(({"path": [s, sorted(doc[s])[0]], "value": "a:b:c"}, "checksum-format"))
     return out
 
 
@@ -307,12 +320,14 @@ class C07(Prop):
     rule = ("from valid current-version documents of each format (the library's own output for generated valid objects): value replacement at a uniformly chosen "
             "documented field with a value outside its domain after the reader's coercion, header version mangled, type gate probed at 1.0/1.1/1.2 with every "
             "format's type and with the type missing, each required key/section/line deleted, image cell keyed by a source/unknown arch, misaligned child UID, "
-            "child arch outside its parent's; correspondence: ok/err of real loads vs the loads model (JSON formats' header/compose/payload, images in full, "
-            "discinfo in full, leading sections of composeinfo/treeinfo); oracle: corrupted => exception; valid => loaded; every part of a loaded object satisfies the catalogue")
+            "child arch outside its parent's; correspondence: ok/err of real loads vs the loads model (all seven formats in full for current-format documents, "
+            "incl. the composeinfo forest rebuild and every treeinfo section); oracle: corrupted => exception; valid => loaded; every part of a loaded object satisfies the catalogue")
     assumptions = ["json.load / configparser are the trusted parsers; the INI document handed to the model is configparser's own parse of the same text",
-                   "bool()-coerced fields (bootable, final, is_layered, internal) have no rejecting set and are not corrupted"]
-    partial = {"C07_sound_composeinfo_partial": "the forest reader is a parameter: soundness of the leading sections is proved from the model, of the variants from the generated flags (Variant.deserialize validates last, add validates its argument)",
-               "C07_sound_treeinfo_partial": "sections after [tree] are a parameter of the theorem (flags only); readers of formats older than 1.0 are not modelled"}
+                   "bool()-coerced fields (bootable, final, is_layered, internal) have no rejecting set and are not corrupted",
+                   "the readers a version gate selects for documents older than 1.0 (composeinfo, rpms <= 0.3) / 0.4 (treeinfo, incl. files without a header) are not "
+                   "modelled (C05): the model answers Other there, C07_sound_* say nothing about such documents; the value of float() is modelled for plain decimal "
+                   "notation only (its syntax errors exactly)"]
+    partial = {}
 
     def __init__(self):
         self._cache = {}
@@ -498,6 +513,6 @@ PROP = C07()
 
 MANIFEST = dict(
     technique="Lean 4 proof over a fill+checks model of loads(): validate() placement in every section reader read from the regenerated call structure (decide), header version/type gate from the regenerated gate, rule catalogue inclusion (C06); differential correspondence of the ok/err outcome; oracle on the real library with document corruptions",
-    text="C07_flags: every section reader ends by validating what it filled and loads() validates the top-level object (decide on Generated/Structure.lean). C07_sound_<format>: loads d = ok x => every part of x satisfies the catalogue (simple formats, images incl. every image of every cell, discinfo: full; composeinfo/treeinfo: leading sections from the model, forest/remaining sections from the flags with the reader as a parameter). C07_header: a successful load has a version matching ^\\d+\\.\\d+$ and, when the generated gate (>= (1,1)) holds, the class's own type. C07_gate_boundary: the gate is exactly >= (1,1). C07_required_*: deleting header/version/type(>=1.1)/payload/compose/compose keys/payload table yields an error.",
+    text="C07_flags: every section reader ends by validating what it filled and loads() validates the top-level object (decide on Generated/Structure.lean). C07_sound_<format>: loads d = ok x => every part of x satisfies the catalogue (all seven formats; composeinfo: every variant of the forest rebuilt from the document at any depth; treeinfo: every section and variant). C07_header: a successful load has a version matching ^\\d+\\.\\d+$ and, when the generated gate (>= (1,1)) holds, the class's own type. C07_gate_boundary: the gate is exactly >= (1,1). C07_required_*: deleting header/version/type(>=1.1)/payload/compose/compose keys/payload table yields an error.",
     note="Only ok/err is observed (any exception class). Readers of formats older than 1.0 are not modelled. Known finding F15 (trailing line feed accepted by `$`).",
     ref="7/C07")
